@@ -192,12 +192,14 @@ def closure_upvar_uses(fx, clo, idx, byref):
                     al.add(t[3][0])
                     ch = True
     ptr_locals = {l for l in al if fx.ty(clo.locals[l])["k"] == "ptr"}
+    # the closure may test the captured pointer itself (`|n| if !out.is_null() { unsafe { *out = n } }`)
+    tests = null_tests(clo, al)
     for bi, kind, place, sp in M.all_places(clo):
-        if place[0] in ptr_locals and place[1] and place[1][0] == "*":
+        if place[0] in ptr_locals and place[1] and place[1][0] == "*" and not dominated_by_not_null(clo, tests, bi):
             out.append("dereference at %s" % F.short_span(sp))
     for bi, t in clo.calls():
         d = t[1].get("d", "")
-        if VALID_PTR_CALLEES.search(d) and any(a[0] in ("c", "m") and a[1][0] in ptr_locals for a in t[2]):
+        if VALID_PTR_CALLEES.search(d) and any(a[0] in ("c", "m") and a[1][0] in ptr_locals for a in t[2]) and not dominated_by_not_null(clo, tests, bi):
             out.append("%s at %s" % (d, F.short_span(t[6])))
     return out
 
